@@ -81,6 +81,15 @@ def _time_of_day(c, ticks, unit):
     key = (ticks.get_id(), unit)
     if key in reg: return reg[key]
     tps = _TOD_UNIT[unit]
+    t = z3.simplify(ticks)
+    if z3.is_app_of(t, z3.Z3_OP_BMUL) and t.num_args() == 2:
+        ks = [a.as_signed_long() for a in (t.arg(0), t.arg(1)) if z3.is_bv_value(a)]
+        if ks and ks[0] % (86400 * tps) == 0:
+            # whole days (a date scaled to this unit): midnight, syntactically
+            zero = z3.BitVecVal(0, 64)
+            out = {"hour": zero, "minute": zero, "second": zero, "microsecond": zero}
+            reg[key] = out
+            return out
     day, h, m, sec, frac = [z3.BitVec(c.name("tod_" + n), 64) for n in ("day", "h", "m", "s", "f")]
     lo, hi = -719162, 2932896
     inrange = z3.And(ticks != INT64_MIN, ticks >= lo * 86400 * tps, ticks <= (hi * 86400 + 86399) * tps + tps - 1)
